@@ -192,8 +192,11 @@ class LazyContext(Harness):
         from passlib.context import LazyCryptContext
 
         kw = dict(sha256_crypt__rounds=1000, deprecated=["md5_crypt"])
+        calls = []
         if self.onload:
             def onload(**kwds):
+                # (a callback that does one-time deferred work: it is run once, as from a single thread)
+                calls.append(1)
                 kwds["sha256_crypt__rounds"] = 1000
                 return kwds
 
@@ -201,7 +204,7 @@ class LazyContext(Harness):
         else:
             ctx = LazyCryptContext(["sha256_crypt", "md5_crypt"], **kw)
         _own_instance_locks(ctx)
-        return {"ctx": ctx}
+        return {"ctx": ctx, "calls": calls}
 
     def body(self, st, op):
         ctx = st["ctx"]
@@ -219,7 +222,7 @@ class LazyContext(Harness):
     def post(self, st):
         ctx = st["ctx"]
         K = _known()
-        return (type(ctx).__name__, ctx.verify(PW, K["sha256_crypt"]), ctx.needs_update(K["md5_crypt"]), tuple(ctx.schemes()))
+        return (type(ctx).__name__, ctx.verify(PW, K["sha256_crypt"]), ctx.needs_update(K["md5_crypt"]), tuple(ctx.schemes()), len(st.get("calls", ())))
 
 
 class LazyB64(Harness):
